@@ -60,6 +60,10 @@ func format(v any) string {
 		return strconv.Itoa(x)
 	case bool:
 		return strconv.FormatBool(x)
+	case float64:
+		// the shortest decimal text that reads back as the same number (the generator stays in the range where the
+		// plain and the %v spelling coincide)
+		return strconv.FormatFloat(x, 'f', -1, 64)
 	}
 	return fmt.Sprint(v)
 }
@@ -123,7 +127,7 @@ var litGen = rapid.StringMatching(`[a-z][a-z0-9._/-]{0,4}`)
 
 // cfgLitGen: configured texts may contain what would be argument syntax in a tag (a value is data, never tag text)
 var cfgLitGen = rapid.OneOf(litGen, litGen, rapid.SampledFrom([]string{"a, b", "k=v", "x,required=false", "p q"}))
-var defGen = rapid.OneOf(rapid.StringMatching(`[a-z][a-z0-9._-]{0,4}`), rapid.SampledFrom([]string{"", "d", "http://h.x:80", "x-1", "Dear ", " x", " ", "a b "}))
+var defGen = rapid.OneOf(rapid.StringMatching(`[a-z][a-z0-9._-]{0,4}`), rapid.SampledFrom([]string{"", "d", "http://h.x:80", "x-1", "Dear ", " x", " ", "a b ", "123456789", "16777217", "3.141592653589793", "0.1", "9007199254740993", "007", "1.50", "TRUE", "00501", "+5", "1.0"}))
 
 func genPlaceholder(t *rapid.T, depth int, allowAbsent bool) string {
 	var key string
@@ -175,7 +179,15 @@ func genConfig(t *rapid.T, allowCycles bool) (map[string]any, bool) {
 	for i, k := range order {
 		switch rapid.IntRange(0, 5).Draw(t, "vkind") {
 		case 0:
-			cfg[k] = rapid.IntRange(0, 99).Draw(t, "ival")
+			switch rapid.IntRange(0, 3).Draw(t, "numkind") {
+			case 0:
+				// numbers with many significant digits: they are configured values like any other
+				cfg[k] = rapid.SampledFrom([]float64{3.141592653589793, 0.1, 2.718281828459045, 1234567.891, 16777217.5, 0.30000000000000004}).Draw(t, "fval")
+			case 1:
+				cfg[k] = rapid.SampledFrom([]int{16777217, 123456789, 987654321, 1 << 40, 9007199254740993}).Draw(t, "bigival")
+			default:
+				cfg[k] = rapid.IntRange(0, 99).Draw(t, "ival")
+			}
 		case 1, 2:
 			cfg[k] = cfgLitGen.Draw(t, "sval")
 		case 3:
@@ -457,6 +469,25 @@ type LazyCfg struct {
 
 func (*LazyCfg) LazyInit()      {}
 func (*LazyCfg) Naming() string { return "lazy-cfg" }
+
+// TestStaticDefaultsAsWritten: the replay of a defect found and repaired (KNOWN_FINDINGS.txt, fixed C16): a default
+// is substituted as written, also when it looks like a number or a boolean.
+func TestStaticDefaultsAsWritten(t *testing.T) {
+	kit.Rec.Rule(rule)
+	for _, d := range []string{"007", "00501", "1.50", "1.0", "TRUE", "+5", "9007199254740993", "0.10"} {
+		for _, form := range []string{"${c16.no.such.key:%s}", "v${c16.no.such.key:%s}", "${c16.no.such.key:%s}-x"} {
+			tag := fmt.Sprintf(form, d)
+			obj := structWith(&kit.Decoys{}, reflect.TypeOf(""), "value", tag)
+			out, _ := runWith(map[string]any{}, 0, obj.Interface())
+			want := strings.Replace(tag, "${c16.no.such.key:"+d+"}", d, 1)
+			if !out.OK() || obj.Elem().FieldByName("F").String() != want {
+				kit.DumpReplay("c16-default-as-written", map[string]any{"tag": tag, "field": obj.Elem().FieldByName("F").String(), "want": want, "outcome": fmt.Sprint(out)})
+				t.Fatalf("C16: value:%q on a string field gives %q (%v); the default is %q, so the tag reads %q", tag, obj.Elem().FieldByName("F").String(), out, d, want)
+			}
+			kit.Rec.Case(tag, true, "default-as-written")
+		}
+	}
+}
 
 func TestRetryAfterSet(t *testing.T) {
 	kit.Rec.Rule(rule)
